@@ -96,6 +96,28 @@ static void dump_tlv(KSI_TLV *t, int depth) {
 	}
 }
 
+/* ---- KSI_TlvElement -> text, forcing the nested view (convertToNested) to `depth` ---- */
+static void dump_el(KSI_TlvElement *t, int depth) {
+	KSI_TlvElement *dummy = NULL;
+	int fl = (t->ftlv.is_nc ? 2 : 0) + (t->ftlv.is_fwd ? 1 : 0);
+	int r = depth > 0 ? KSI_TlvElement_getElement(t, 0xfffffffu, &dummy) : KSI_UNKNOWN_ERROR;
+	KSI_TlvElement_free(dummy);
+	if (r == KSI_OK && t->subList != NULL) {
+		size_t i, n = KSI_TlvElementList_length(t->subList);
+		printf("N%u.%d[", t->ftlv.tag, fl);
+		for (i = 0; i < n; i++) {
+			KSI_TlvElement *c = NULL;
+			KSI_TlvElementList_elementAt(t->subList, i, &c);
+			if (i) putchar(',');
+			dump_el(c, depth - 1);
+		}
+		putchar(']');
+	} else {
+		printf("R%u.%d:", t->ftlv.tag, fl);
+		puthex(stdout, t->ptr + t->ftlv.hdr_len, t->ftlv.dat_len);
+	}
+}
+
 static void do_line(char *work, const char *orig) {
 	char *w[8];
 	int n = split_words(work, w, 8);
@@ -181,6 +203,41 @@ static void do_line(char *work, const char *orig) {
 		printf("%d %zu ", res, consumed);
 		puthex(stdout, rest, nrest);
 		free(rest); free(buf); free(b);
+	} else if (n == 3 && strcmp(w[0], "elparse") == 0) {
+		size_t len; unsigned char *b = unhex(w[1], &len); int depth = atoi(w[2]);
+		unsigned char *x = (unsigned char *)malloc(len);
+		KSI_TlvElement *e = NULL; int res;
+		memcpy(x, b, len);
+		res = KSI_TlvElement_parse(x, len, &e);
+		printf("%d ", res);
+		if (res == KSI_OK) dump_el(e, depth); else putchar('-');
+		KSI_TlvElement_free(e); free(x); free(b);
+	} else if ((n == 4 && strcmp(w[0], "elremove") == 0) || (n == 3 && strcmp(w[0], "elset") == 0)) {
+		size_t len; unsigned char *b = unhex(w[1], &len);
+		unsigned char *x = (unsigned char *)malloc(len);
+		KSI_TlvElement *e = NULL, *out = NULL, *child = NULL; int res;
+		unsigned char *cx = NULL;
+		memcpy(x, b, len);
+		res = KSI_TlvElement_parse(x, len, &e);
+		if (res != KSI_OK) { printf("PARSE-FAILED-%d", res); free(x); free(b); return; }
+		if (w[0][2] == 'r') {
+			res = KSI_TlvElement_removeElement(e, (unsigned)strtoul(w[2], NULL, 10), atoi(w[3]) ? &out : NULL);
+		} else {
+			size_t cl; unsigned char *cb = unhex(w[2], &cl);
+			cx = (unsigned char *)malloc(cl); memcpy(cx, cb, cl); free(cb);
+			res = KSI_TlvElement_parse(cx, cl, &child);
+			if (res != KSI_OK) { printf("CHILD-PARSE-FAILED-%d", res); KSI_TlvElement_free(e); free(cx); free(x); free(b); return; }
+			res = KSI_TlvElement_setElement(e, child);
+		}
+		printf("%d ", res);
+		if (res == KSI_OK) {
+			size_t sl = 0; unsigned char *buf = (unsigned char *)malloc(70000);
+			int r2 = KSI_TlvElement_serialize(e, buf, 70000, &sl, 0);
+			printf("%d ", r2);
+			if (r2 == KSI_OK) puthex(stdout, buf, sl); else putchar('-');
+			free(buf);
+		} else printf("- -");
+		KSI_TlvElement_free(out); KSI_TlvElement_free(child); KSI_TlvElement_free(e); free(cx); free(x); free(b);
 	} else {
 		printf("UNKNOWN-OP");
 	}
